@@ -1,0 +1,26 @@
+//go:build verif
+
+package receiver
+
+import (
+	"sort"
+
+	"github.com/PowerDNS/lightningstream/snapshot"
+	"github.com/PowerDNS/lightningstream/utils/verifhook"
+)
+
+// verifPickSnapshot replaces the map-order choice of the next ready snapshot
+// by a choice of the simulated scheduler over the sorted instance names.
+// If the scheduler makes no choice, the first sorted name is used.
+func verifPickSnapshot(m map[string]snapshot.Update) (string, snapshot.Update) {
+	names := make([]string, 0, len(m))
+	for name := range m {
+		names = append(names, name)
+	}
+	sort.Strings(names)
+	i := verifhook.Pick("receiver:next", len(names))
+	if i < 0 || i >= len(names) {
+		i = 0
+	}
+	return names[i], m[names[i]]
+}
